@@ -31,7 +31,7 @@ type Paramable interface {
 // * if `struct.Slug` the slug is used to fill the `{id}` slot of the URL
 // * if `struct.ID` the ID is used to fill the `{id}` slot of the URL
 func PathFor(in interface{}) (string, error) {
-	if in == nil {
+	if !reflect.Indirect(reflect.ValueOf(in)).IsValid() { // nil, or a nil pointer
 		return "", errors.New("can not calculate path to nil")
 	}
 
